@@ -425,8 +425,8 @@ PROPS["C06"] = {
         H(CEX, "c06_cmp_f64_scalars", "CompiledPredicate::eval_chunk (CmpF64)", "mask bit == arrow total-order comparison, all f64 bit patterns x 6 operators", finding="D7"),
         H(CEX, "c06_cmp_f64_scalars__excluding_known", "CompiledPredicate::eval_chunk (CmpF64)", "same, outside class D7 (NaN operand, or both operands zero); mask is 0/1"),
         H(CEX, "c06_cmp_f64_shape_reg_lit__excluding_known", "CompiledPredicate::eval_chunk (CmpF64, LitF64)", "register/scalar shape keeps the operand order"),
-        H(CEX, "c06_cmp_f64_shape_lit_reg__excluding_known", "CompiledPredicate::eval_chunk (CmpF64, LitF64)", "scalar/register shape keeps the operand order"),
-        H(CEX, "c06_cmp_f64_shape_reg_reg__excluding_known", "CompiledPredicate::eval_chunk (CmpF64, LitF64)", "register/register shape keeps the operand order"),
+        H(CEX, "c06_cmp_f64_shape_lit_reg__excluding_known", "CompiledPredicate::eval_chunk (CmpF64, LitF64)", "scalar/register shape keeps the operand order", tier="thorough"),
+        H(CEX, "c06_cmp_f64_shape_reg_reg__excluding_known", "CompiledPredicate::eval_chunk (CmpF64, LitF64)", "register/register shape keeps the operand order", tier="thorough"),
         H(CEX, "c06_cmp_i64_scalars", "CompiledPredicate::eval_chunk (CmpI64)", "mask bit == arrow i64 comparison, all inputs, mask is 0/1"),
         H(CEX, "c06_cmp_i32_scalars", "CompiledPredicate::eval_chunk (CmpI32)", "mask bit == arrow i32 comparison (Int32 and Date32 columns), all inputs"),
         H(CEX, "c06_lit_f64_fills_register", "CompiledPredicate::eval_chunk (LitF64)", "the literal fills its register; other registers untouched"),
